@@ -228,11 +228,11 @@ pub fn def_strategy_ultra(vd: DefView) -> impl Fn(Tier) -> BoxedStrategy<Case> +
     move |tier: Tier| {
         let mk = vd.mk;
         (prop_oneof![3 => vd.min_n..=vd.min_n + 7, 1 => vd.min_n + 8..=32usize], any::<u64>(), 0i64..4)
-            .prop_map(move |(n, seed, shape)| Case { spec: Some(mk(n)), ints: vec![(seed >> 1) as i64, tier.pick(135_000, 1_100_000) as i64, shape], a: Rat(1, 1), ..Default::default() })
+            .prop_map(move |(n, seed, shape)| Case { spec: Some(mk(n)), ints: vec![(seed >> 1) as i64, { let _ = tier; 135_000i64 }, shape], a: Rat(1, 1), ..Default::default() })
             .boxed()
     }
 }
-pub const ULTRA_RULE: &str = "ultra-long histories: 135 000 values (thorough 1.1e6; past 2^16 and 2^17 updates, where a narrowed counter wraps or saturates) on the 1/8 grid derived from a generated seed (wide noise; walk with 257-step plateaus; zero stretches; ties around a level), N from the view's minimum to +7 (1 in 4: up to 32); the crate's code runs at the exact scalar and the batch definition is evaluated from the last N+3 values at 12..120 checkpoints (every power of two from 2^16 on, N+1 steps after it, the last steps, seeded steps; steps whose last N+1 values are all equal are skipped where the view holds its previous output). Non-trivial: >= 8 checkpoints compared.";
+pub const ULTRA_RULE: &str = "ultra-long histories: 135 000 values (both tiers: the exact scalar's arena of big values is bounded; past 2^16 and 2^17 updates, where a narrowed counter wraps or saturates) on the 1/8 grid derived from a generated seed (wide noise; walk with 257-step plateaus; zero stretches; ties around a level), N from the view's minimum to +7 (1 in 4: up to 32); the crate's code runs at the exact scalar and the batch definition is evaluated from the last N+3 values at 12..120 checkpoints (every power of two from 2^16 on, N+1 steps after it, the last steps, seeded steps; steps whose last N+1 values are all equal are skipped where the view holds its previous output). Non-trivial: >= 8 checkpoints compared.";
 /// exact leg over an ultra stream: the definition is evaluated from the last N+3 values at the checkpoints only (every view
 /// using this is a function of the last N+1 values, or holds its previous output on a flat window: those checkpoints are skipped)
 pub fn def_check_ultra_q(id: String, vd: DefView) -> impl Fn(&Case) -> Verdict + Send + Sync {
